@@ -1,12 +1,13 @@
 /- driver for the C20 reader models: one decoded file per line (see harness/c20/encode.py for the token grammar)
 
    mf    <csvdoc>
-   pl    <argstr-hex> <isFile> <peekOk> <startsHash> <csvdoc: rest> <csvdoc: all>
+   pl    <argstr-hex> <isFile> <sniff: - | Class> <peekStrictOk> <peekIncrOk> <startsHash> <csvdoc: rest> <csvdoc: all>
+   mff   <name-hex> <sql: n | l | r:Class> <csvdoc: plain open> <csvdoc: gzip.open>
    lca   <isFile> <sqlite: v | l | r:Class> <text: r | e | t:<hex char> <dec>>
-   sbt   <dec> <mkdir: - | Class> <sample: n|d|e|u:Class> <net> <manifest: n|d|e|x|u:Class | c <csvdoc>>
+   sbt   <zip: - | r:Class | m<count>> <open: - | Class> <dec> <mkdir: - | Class> <sample: n|d|e|u:Class> <net> <manifest: n|d|e|x|u:Class | c <csvdoc>>
    chain <k> {<fn> <inner>}*k        inner = none | idx | exc:Cls<Base<…
 
-   csvdoc = <first: E | L<hex>> <tail: e|c|d> <nrows> {<ncells> <cell-hex>…}
+   csvdoc = <first: E | X:Class | L<hex>> <tail: e|c|d|x:Class> <nrows> {<ncells> <cell-hex>…}
    dec    = J | V | R | U | D <json>
    json   = n | t | f | i<int> | d<num>/<den> | N | I+ | I- | s<hex> | a<k> json*k | o<k> (<key-hex> json)*k
    hex of the empty string is "-" -/
@@ -86,12 +87,16 @@ def pTail : P Tail
   | "e" :: r => some (.eof, r)
   | "c" :: r => some (.csvError, r)
   | "d" :: r => some (.decodeError, r)
+  | t :: r => if t.startsWith "x:" then (Cls.ofName (dropS 2 t)).map (fun c => (Tail.ioError c, r)) else none
   | _ => none
 
 def pCsvDoc : P CsvDoc := fun ts => do
   let (first, r1) ← (match ts with
     | "E" :: r => some (FirstLine.decodeError, r)
-    | t :: r => if t.startsWith "L" then (hexStr (dropS 1 t)).map (fun s => (FirstLine.line s, r)) else none
+    | t :: r =>
+      if t.startsWith "L" then (hexStr (dropS 1 t)).map (fun s => (FirstLine.line s, r))
+      else if t.startsWith "X:" then (Cls.ofName (dropS 2 t)).map (fun c => (FirstLine.ioError c, r))
+      else none
     | [] => none)
   let (tail, r2) ← pTail r1
   let (n, r3) ← pNat r2
@@ -164,16 +169,39 @@ def doMf (ts : List String) : String :=
     | .error e => showStop e ++ s!" w={r.work}"
   | _ => "bad-op"
 
+def doMff (ts : List String) : String :=
+  match ts with
+  | nm :: sq :: rest =>
+    let sql : Option SqlRes :=
+      if sq == "n" then some .notSqlite else if sq == "l" then some .loaded
+      else if sq.startsWith "r:" then (Cls.ofName (dropS 2 sq)).map .raises else none
+    match hexStr nm, sql, (do
+        let (d1, r1) ← pCsvDoc rest
+        let (d2, r2) ← pCsvDoc r1
+        if r2.isEmpty then pure (d1, d2) else none) with
+    | some name, some sq, some (d1, d2) =>
+      let r := loadManifestFile litModel ⟨name, sq, d1, d2⟩
+      match r.res with
+      | .ok rows => s!"ok {rows.length} " ++ ";".intercalate (rows.map showMfRow) ++ s!" w={r.work}"
+      | .error e => showStop e ++ s!" w={r.work}"
+    | _, _, _ => "bad-op"
+  | _ => "bad-op"
+
 def doPl (ts : List String) : String :=
   match ts with
   | a :: rest =>
     match hexStr a, (do
-        let (isFile, r1) ← pBool rest
-        let (peekOk, r2) ← pBool r1
+        let (isFile, r0) ← pBool rest
+        let (sniff, r1) ← (match r0 with
+          | "-" :: r => some (none, r)
+          | t :: r => (Cls.ofName t).map (fun c => (some c, r))
+          | [] => none)
+        let (peekOk, r1b) ← pBool r1
+        let (peekIncr, r2) ← pBool r1b
         let (hash, r3) ← pBool r2
         let (d1, r4) ← pCsvDoc r3
         let (d2, r5) ← pCsvDoc r4
-        if r5.isEmpty then pure (PickDoc.mk isFile peekOk d1.first hash d1.rows d1.tail d2.rows d2.tail) else none) with
+        if r5.isEmpty then pure (PickDoc.mk isFile sniff peekOk peekIncr d1.first hash d1.rows d1.tail d2.rows d2.tail) else none) with
     | some argstr, some doc =>
       match fromArgs argstr with
       | .error e => showStop e ++ " w=0"
@@ -217,7 +245,18 @@ def pFsRead (t : String) : Option FsRead :=
 
 def doSbt (ts : List String) : String :=
   let parsed : Option SbtFile := do
-    let (dec, r1) ← pDec ts
+    let (zip, ts1) ← (match ts with
+      | "-" :: r => some (ZipState.none_, r)
+      | t :: r =>
+        if t.startsWith "r:" then (pCls (dropS 2 t)).map (fun c => (ZipState.raises c, r))
+        else if t.startsWith "m" then (dropS 1 t).toNat?.map (fun n => (ZipState.members n, r))
+        else none
+      | [] => none)
+    let (openExc, ts2) ← (match ts1 with
+      | "-" :: r => some (none, r)
+      | t :: r => (pCls t).map (fun c => (some c, r))
+      | [] => none)
+    let (dec, r1) ← pDec ts2
     match r1 with
     | mk :: sm :: net :: rest =>
       let mkdirExc ← (if mk == "-" then some none else (pCls mk).map some)
@@ -228,7 +267,7 @@ def doSbt (ts : List String) : String :=
         | "c" :: r => (match pCsvDoc r with | some (d, []) => some (MfState.content d) | _ => none)
         | [t] => (pFsRead t).map MfState.fs
         | _ => none)
-      pure ⟨dec, mkdirExc, sample, mf, netB⟩
+      pure ⟨dec, mkdirExc, sample, mf, netB, zip, openExc⟩
     | _ => none
   match parsed with
   | none => "bad-op"
@@ -286,6 +325,7 @@ def step (_ : Unit) (line : String) : Unit × String :=
   match words line with
   | "#" :: _ => ((), "#")
   | "mf" :: ts => ((), doMf ts)
+  | "mff" :: ts => ((), doMff ts)
   | "pl" :: ts => ((), doPl ts)
   | "lca" :: ts => ((), doLca ts)
   | "sbt" :: ts => ((), doSbt ts)
